@@ -137,6 +137,35 @@ def immutable(v, depth=0):
     return False
 
 
+def constant_stores(f, extras):
+    """
+    {field: value} when the only thing function f does with the further fields is to assign
+    literal constants to them in unconditional top-level statements of its body, and f has no
+    `return` (so every normally terminating run executes each of these statements, in order);
+    None otherwise.  Used for parse_vector, whose loop is not executed by the derivation.
+    """
+    me = f.node.args.args[0].arg
+    for n in ast.walk(f.node):
+        if isinstance(n, ast.Return):
+            return None
+    out = {}
+    for stmt in f.node.body:
+        mentioned = [n for n in ast.walk(stmt)
+                     if isinstance(n, ast.Attribute) and isinstance(n.value, ast.Name) and n.value.id == me and n.attr in extras]
+        if not mentioned:
+            continue
+        if not (isinstance(stmt, ast.Assign) and len(stmt.targets) == 1 and mentioned == [stmt.targets[0]]
+                and isinstance(stmt.targets[0].ctx, ast.Store)):
+            return None
+        try:
+            out[stmt.targets[0].attr] = ast.literal_eval(stmt.value)
+        except Exception:  # noqa
+            return None
+        if not immutable(out[stmt.targets[0].attr]):
+            return None
+    return out
+
+
 def sig(v, depth=0):
     """structural key of a symbolic value (equal keys => equal values; unequal keys say nothing)"""
     if depth > 6:
@@ -229,12 +258,21 @@ def attach(ctx, o, view_attr, view, known, stop_after, parsed_fields, accessors=
             return inner(eng_, st_, f, args, kwargs) if inner else (False, None)
         name = f.name
         recv = args[0]
+        if recv is not mode["target"] and not getattr(recv, "assumed_state", False):
+            # an object under construction (e.g. the re-parse lemmas build a second object with the
+            # real constructor): none of this section's business
+            return inner(eng_, st_, f, args, kwargs) if inner else (False, None)
         if mode["harvest"] and recv is mode["target"] and len(eng_.call_stack) == 1:
             try:
                 if name == "parse_vector":
+                    consts = {}
                     if name in trans:
-                        raise Unsupported("parse_vector mentions the further fields %s: their value after parsing is not derived" % sorted(extras))
+                        consts = constant_stores(f, extras)
+                        if consts is None:
+                            raise Unsupported("parse_vector uses the further fields %s in a way the derivation does not follow" % sorted(extras))
                     for k, val in parsed_fields().items():
+                        recv.fields[k] = val
+                    for k, val in consts.items():
                         recv.fields[k] = val
                     return True, None
                 if name == "check_mandatory" and name not in trans:
